@@ -19,9 +19,11 @@ fields of `Key`, before byte encoding) and value. Decided:
      row at hand; script prefix / script length filters look at the cell's OTHER script (a cell without type script fails a type prefix filter and has length 0); data prefix /
      exact / partial, data length, capacity and block ranges are half-open; the answer is exactly the passing rows under the prefix in scan order, at most `limit`, each item with
      that row's cell, out-point, coordinates, and the data iff asked.
+ m6  `IndexerHandle::get_cells_capacity`: same scan and filters; the capacity answered is the sum over exactly the rows get_cells would list (found: the script length range was
+     end-inclusive here and end-exclusive in get_cells -- repaired), with the hash and number decoded from the newest header row; without a header row there is no answer.
 
 Outside: the byte encodings of keys and values (`From<Key> for Vec<u8>`, `parse_cell_value`; modelled as injective records), `build_query_options`, the `FilterOptions` conversion,
-`get_cells_capacity`, filter combinations, the pool overlay of get_cells, custom filters, prune, the pool, the rich indexer (SQL).
+filter combinations, the pool overlay of get_cells / get_cells_capacity, custom filters, prune, the pool, the rich indexer (SQL).
 """
 import os
 import re
@@ -404,9 +406,9 @@ def m3_two_blocks_then_two_rollbacks(S):
             S.prove(ctx, ob, f"{name}_after_{back}_rollbacks_rows_equal_the_state_{2 - back}_blocks_in", [], bool(not diff), extra={"note": str(diff)[:1500]})
 
 
-from obligations.indexer_query import m4_get_transactions, m5_get_cells     # noqa: E402  (query side: the `get_transactions` / `get_cells` RPCs over two index rows)
+from obligations.indexer_query import m4_get_transactions, m5_get_cells, m6_get_cells_capacity     # noqa: E402  (query side: the `get_transactions` / `get_cells` RPCs over two index rows)
 
-OBLIGATIONS = [m1_m2_append_then_rollback, m3_two_blocks_then_two_rollbacks, m4_get_transactions, m5_get_cells]
+OBLIGATIONS = [m1_m2_append_then_rollback, m3_two_blocks_then_two_rollbacks, m4_get_transactions, m5_get_cells, m6_get_cells_capacity]
 
 ENGINE = "M"
 LEVEL = "other"
@@ -416,16 +418,17 @@ EXPLANATION = ("Indexer::append and Indexer::rollback are executed symbolically 
                "filter-row existence and transaction identity symbolic), the database iterator and point lookups as environment.")
 BOUNDS = {"scenarios": "5 block shapes (cellbase only; spending an untyped / typed cell of an earlier block; a cell created and spent inside the block; an input unknown to the index), <= 3 transactions, <= 2 inputs/outputs",
           "query": "get_transactions: 2 rows following the start key, limit 1 and 2, Lock/Type search, grouped/ungrouped, exact/prefix mode, script filter present, block range present or not",
+          "query_capacity": "get_cells_capacity: 2 rows, Lock/Type search, one filter at a time (9 kinds), exact and prefix mode, newest header row present or not",
           "query_cells": "get_cells: 2 rows following the start key, Lock/Type search, one filter at a time (9 kinds incl. none), exact mode limit 2 (limit 1 for two filters), prefix mode, with and without data; no pool attached",
-          "outside": "byte encodings of keys and values, build_query_options (start key / cursor), FilterOptions conversion, get_cells_capacity, combinations of several filters, cells consumed by pool transactions, custom filters, prune, rich indexer"}
+          "outside": "byte encodings of keys and values, build_query_options (start key / cursor), FilterOptions conversion, combinations of several filters, cells consumed by pool transactions, custom filters, prune, rich indexer"}
 ASSUMPTIONS = ["key and value byte encodings are injective (modelled as records)", "store reads see the committed state, batch writes become visible at commit", "no custom filter, no pool attached",
                "query: the iterator yields the rows in key order; every transaction-index key ends with 17 bytes of coordinates (storage invariant established by append, m1); the request is within the request limit and does not time out"]
 TRUSTED = []
 LEVEL_TEXT = ("Decided on the real MIR of Indexer::append / rollback for bounded block scenarios: the rows written for a block are exactly the definition of the index (live cells by script, "
               "transactions by script, consumed cells kept for undo), and rollback restores every row of the state before the append. get_transactions answers exactly the scanned rows under the searched prefix that pass the script filter (looked up in the transaction index of the other script kind under "
               "the row's own coordinates), the exact-length test and the block range, in scan order, grouped by transaction when asked, never more than the limit. get_cells answers exactly the scanned live-cell rows under the prefix that pass the (single) filter "
-              "-- script prefix / length of the cell's other script, output data prefix / exact / partial, data length, capacity, block range, each a half-open range -- with the cell loaded by the row's own out-point. get_cells_capacity, "
+              "-- script prefix / length of the cell's other script, output data prefix / exact / partial, data length, capacity, block range, each a half-open range -- with the cell loaded by the row's own out-point; get_cells_capacity sums the capacities of exactly those rows and reports the newest header row. "
               "byte encodings, prune and histories longer than one append/rollback are outside and not claimed.")
-LEVEL_NOTE = "Partial claim (row-level append/rollback on bounded scenarios; get_transactions and get_cells over two rows, one filter at a time). get_cells_capacity, filter combinations, encodings, cursors, pool overlay, prune, RocksDB, SQL back end: outside."
+LEVEL_NOTE = "Partial claim (row-level append/rollback on bounded scenarios; get_transactions, get_cells and get_cells_capacity over two rows, one filter at a time). Filter combinations, encodings, cursors, pool overlay, prune, RocksDB, SQL back end: outside."
 TECHNIQUE = "symbolic execution of rustc MIR (scenario store as environment, logged batch operations), decided by the executor + SMT (cvc5 + z3) for path feasibility"
 DESIGN_REF = "DESIGN.md section 4 (C18)"
